@@ -1132,6 +1132,15 @@ class SymNumpy:
     def allclose(self, a, b, rtol=1e-5, atol=1e-8):
         return sym_allclose(a, b, rtol, atol)
 
+    def isclose(self, a, b, rtol=1e-5, atol=1e-8, **k):
+        if not (has_sym(a) or has_sym(b)):
+            return _np.isclose(a, b, rtol=rtol, atol=atol, **k)
+        a, b = _np.broadcast_arrays(_np.asarray(a, dtype=object), _np.asarray(b, dtype=object))
+        out = _np.empty(a.shape, dtype=bool)      # a boolean array, as numpy returns: each entry is decided (forked) here
+        for idx in _np.ndindex(a.shape):
+            out[idx] = bool(abs(a[idx] - b[idx]) <= atol + rtol * abs(b[idx]))
+        return out
+
 
 def sym_allclose(a, b, rtol=1e-5, atol=1e-8):
     if not (has_sym(a) or has_sym(b)):
